@@ -294,5 +294,16 @@ func (m *Model) WriteCoqCases(path string) (int, error) {
 		b.WriteString(")")
 	}
 	b.WriteString("].\nDefinition M := Eval vm_compute in mismatches cases.\nPrint M.\n")
+	// the same requests in wire syntax, so that a mismatch can be re-asked of a fresh driver process
+	var j strings.Builder
+	j.WriteString("[")
+	for i, c := range m.samples {
+		if i > 0 {
+			j.WriteString(",\n")
+		}
+		fmt.Fprintf(&j, "{\"op\":%d,\"arg\":%q,\"want\":%q}", c.op, c.arg.String(), c.want.String())
+	}
+	j.WriteString("]\n")
+	os.WriteFile(path+".json", []byte(j.String()), 0644)
 	return len(m.samples), os.WriteFile(path, []byte(b.String()), 0644)
 }
